@@ -159,11 +159,21 @@ def _evaluate_require(ast, file_path, package_lua, lua_path=None):
             # first require() the Lua interpreter encounters.)
 
             if not use_game_loop:
-                reqd_lua.root.stats[:] = [
+                game_loop_stats = [
                     s for s in reqd_lua.root.stats
-                    if not isinstance(s, parser.StatFunction) or
-                    s.funcname.namepath[0].value not in GAME_LOOP_FUNCTION_NAMES]  # noqa: E501
-                reqd_lua.reparse(writer_cls=lua.LuaASTEchoWriter)
+                    if isinstance(s, parser.StatFunction) and
+                    s.funcname.namepath[0].value in GAME_LOOP_FUNCTION_NAMES]
+                if game_loop_stats:
+                    # Remove the functions' tokens and parse what is left.
+                    # (Writing the modified AST over the original token
+                    # stream only works if the functions come last.)
+                    kept_tokens = list(reqd_lua.tokens)
+                    for s in reversed(game_loop_stats):
+                        kept_tokens[s.start_pos:s.end_pos] = [
+                            lexer.TokNewline(b'\n')]
+                    reqd_lua = lua.Lua.from_lines(
+                        [b''.join(t.code for t in kept_tokens)],
+                        version=game.DEFAULT_VERSION)
 
             package_lua[require_path] = reqd_lua
             _evaluate_require(reqd_lua, reqd_filepath,
